@@ -219,6 +219,18 @@ impl<R: io::Read + io::Seek> ReaderCursor<R> {
     }
 }
 
+#[cfg(grenad_verif)]
+impl<R> ReaderCursor<R> {
+    /// Verification hook: the offsets recorded next to the index block held at
+    /// each level (root first), or `None` when no index block is loaded.
+    pub fn verif_fingerprint(&self) -> Option<Vec<u64>> {
+        self.index_block_cursor
+            .inner
+            .as_ref()
+            .map(|inner| inner.iter().map(|(offset, _)| *offset).collect())
+    }
+}
+
 impl<R> Deref for ReaderCursor<R> {
     type Target = Reader<R>;
 
